@@ -3451,7 +3451,7 @@ class SFTPClientFile:
 
         if offset is not None:
             if size is None or size < 0:
-                size = (await self._end()) - offset
+                size = max((await self._end()) - offset, 0)
 
             try:
                 if self.read_len and size > \
@@ -3523,7 +3523,7 @@ class SFTPClientFile:
 
         if offset is not None:
             if size is None or size < 0:
-                size = (await self._end()) - offset
+                size = max((await self._end()) - offset, 0)
         else:
             offset = 0
             size = 0
